@@ -61,6 +61,10 @@ def main():
         else:
             sub = args[i]; i += 1
     dirs = sorted(d for d in glob.glob(os.path.join(VERIF, 'seeded', '*')) if sub in os.path.basename(d) and os.path.exists(os.path.join(d, 'meta.json')))
+    skipped = [d for d in dirs if json.load(open(os.path.join(d, 'meta.json'))).get('out_of_scope')]
+    for d in skipped:
+        print(f'{os.path.basename(d):70s} out of scope (see note in meta.json), not run')
+    dirs = [d for d in dirs if d not in skipped]
     shards = max(4, 16 // jobs)
     missed = []
     with concurrent.futures.ThreadPoolExecutor(jobs) as ex:
